@@ -264,3 +264,35 @@ Proof.
   - rewrite firstn_length, Hlen. lia.
 Qed.
 
+
+(* ---------- one block of the derived key ---------- *)
+Lemma flat_map_block {B} (f : nat -> list B) h l i : (forall x, length (f x) = h) -> (1 <= i <= l)%nat ->
+  firstn h (skipn ((i - 1) * h) (flat_map f (seq 1 l))) = f i.
+Proof.
+  intros Hf Hi.
+  assert (Eseq : seq 1 l = seq 1 (i - 1) ++ [i] ++ seq (i + 1) (l - i)).
+  { replace l with ((i - 1) + (1 + (l - i)))%nat at 1 by lia. rewrite seq_app. f_equal.
+    replace (1 + (i - 1))%nat with i by lia. rewrite seq_app. cbn [seq app]. reflexivity. }
+  rewrite Eseq, !flat_map_app. cbn [flat_map]. rewrite app_nil_r.
+  assert (Hlen : length (flat_map f (seq 1 (i - 1))) = ((i - 1) * h)%nat).
+  { rewrite (flat_map_length_const f h) by (intros; apply Hf). now rewrite seq_length. }
+  rewrite skipn_app, Hlen, Nat.sub_diag. cbn [skipn].
+  rewrite skipn_all2 by lia. cbn [app].
+  rewrite firstn_app, Hf, Nat.sub_diag. cbn [firstn]. rewrite app_nil_r.
+  apply firstn_all2. rewrite Hf. lia.
+Qed.
+
+Lemma pbkdf2_spec_block t P S c l i : (1 <= i <= l)%nat ->
+  firstn (digest_size t) (skipn ((i - 1) * digest_size t) (PBKDF2_spec t P S c (l * digest_size t))) = pbkdf2_F t P S c (N.of_nat i).
+Proof.
+  intros Hi. unfold PBKDF2_spec.
+  assert (Hh : (0 < digest_size t)%nat) by (destruct t; cbn; lia).
+  assert (El : ((l * digest_size t + digest_size t - 1) / digest_size t = l)%nat).
+  { symmetry. apply (Nat.div_unique _ _ l (digest_size t - 1)); lia. }
+  rewrite El.
+  set (fm := flat_map (fun i0 : nat => pbkdf2_F t P S c (N.of_nat i0)) (seq 1 l)).
+  assert (Hfm : length fm = (l * digest_size t)%nat).
+  { unfold fm. rewrite (flat_map_length_const _ (digest_size t)) by (intros; apply F_len). now rewrite seq_length. }
+  rewrite (firstn_all2 (n := (l * digest_size t)%nat) fm) by lia.
+  apply (flat_map_block (fun i => pbkdf2_F t P S c (N.of_nat i)) (digest_size t) l i); [intros; apply F_len|exact Hi].
+Qed.
